@@ -58,6 +58,13 @@ def history(rng, n):
 
 
 def params_for(rng, name, explicit):
+    kw = _params_for(rng, name, explicit)
+    if "frequency" in kw and rng.random() < 0.5:       # the sampling step spelled as Dt instead of frequency
+        kw["Dt"] = 1.0 / kw.pop("frequency")
+    return kw
+
+
+def _params_for(rng, name, explicit):
     if not explicit:
         return {}
     fr = gens.logu(rng, 10.0, 500.0)
@@ -194,12 +201,24 @@ def run_batch(name, kw, g, a, m, seed=None, order=3):
     return np.asarray(cfg.batch(g.copy(), a.copy(), m.copy(), **kw), float)
 
 
-def run_stream(name, kw, q0, g, a, m, seed=None, order=3):
+def run_stream(name, kw, q0, g, a, m, seed=None, order=3, explicit_dt=False):
+    """explicit_dt: the instance is built WITHOUT its sampling rate (it keeps the class default) and the step is handed to every update(dt=...) call."""
     import ahrs
     F = ahrs.filters
     if seed is not None:
         np.random.seed(seed)
+    dt = None
+    if explicit_dt:
+        kw = dict(kw)
+        dt = kw.pop("Dt") if "Dt" in kw else (1.0 / kw.pop("frequency") if "frequency" in kw else 0.01)
     if name.startswith("AngularRate"):
+        f = F.AngularRate(**kw)
+        Q = [np.array(q0, float)]
+        k_ = {} if dt is None else {"dt": dt}
+        for t in range(1, len(g)):
+            Q.append(np.asarray(f.update(Q[-1], g[t].copy(), **k_) if name.endswith("closed") else f.update(Q[-1], g[t].copy(), method="series", order=order, **k_), float))
+        return np.array(Q)
+    if False:
         f = F.AngularRate(**kw)
         Q = [np.array(q0, float)]
         for t in range(1, len(g)):
@@ -207,7 +226,7 @@ def run_stream(name, kw, q0, g, a, m, seed=None, order=3):
         return np.array(Q)
     cfg = filt.registry()[name]
     inst = cfg.new(**kw)
-    return filt.stream(cfg, inst, q0, g.copy(), a.copy(), m.copy())
+    return filt.stream(cfg, inst, q0, g.copy(), a.copy(), m.copy(), dt=dt)
 
 
 def outcome_equal(o1, o2):
@@ -255,6 +274,14 @@ def check_bs(case, ctx):
                             ctx.ok("batch and stream agree on where values are non-finite", np.array_equal(np.isfinite(B), np.isfinite(S)), route=r2)
                     eq, why = outcome_equal(s1, s2)
                     ctx.ok("repeating the stream gives bit-identical output", eq, {"why": why}, route=r)
+                # the other way of telling a streamed filter its sampling step: a bare instance and dt handed to every update() call
+                s3 = call(run_stream, name, kw, B[0], g, a, m, seed, order, True)
+                if ctx.returned(s3, clause="streaming through update(dt=...) on an instance built without its rate", route=r2):
+                    S3 = np.asarray(s3.value, float)
+                    if S3.shape == B.shape and np.all(np.isfinite(B)) and np.all(np.isfinite(S3)):
+                        d3 = np.abs(B - S3).max(axis=1)
+                        ctx.le("batch run = stream with the step passed as update(dt=...)", float(d3.max()), TOL_BS,
+                               {"first_differing_sample": int(np.argmax(d3 > TOL_BS)) if (d3 > TOL_BS).any() else -1, "params": kw}, route=r2)
     after = snapshot()
     shared_state_clause(ctx, before, after, rng_allowed=(name in ("OLEQ",) or name.startswith("ROLEQ")))
 
